@@ -14,6 +14,7 @@ import (
 	"fmt"
 	"os"
 	"path/filepath"
+	"strings"
 	"testing"
 	"time"
 
@@ -22,6 +23,7 @@ import (
 	"github.com/piotrnar/gocoin/client/peersdb"
 	"github.com/piotrnar/gocoin/client/txpool"
 	"github.com/piotrnar/gocoin/lib/others/qdb"
+	"github.com/piotrnar/gocoin/lib/others/siphash"
 
 	"verif/harness/hx"
 	"verif/harness/ledger"
@@ -78,6 +80,47 @@ func (NetH) Gen(prop string, seed uint64, tier string) *hx.Case {
 			n = r.Range(1, 6)
 		}
 		withVersion := r.Chance(0.85)
+		if r.Chance(0.4) {
+			// a scripted compact-block conversation (BIP152), possibly ending in a malformed or incomplete step,
+			// with unrelated traffic in between
+			add := func(cmd, kind string) {
+				id++
+				ops = append(ops, hx.J(NetMsg{P: p, ID: id, Seed: r.U64(), Cmd: cmd, Kind: kind, DelayMs: []int{0, 0, 1, 5, 11, 30}[r.Intn(6)]}))
+			}
+			noise := func() {
+				for r.Chance(0.25) {
+					add(netCmds[r.Intn(len(netCmds))], []string{"valid", "mutate", "trunc", "random"}[r.Intn(4)])
+				}
+			}
+			add("version", "valid")
+			add("verack", "valid")
+			if r.Chance(0.85) {
+				add("sendcmpct", "valid")
+			}
+			for round := 0; round < 1+r.Intn(3); round++ {
+				noise()
+				switch r.Pick(35, 20, 25, 20) {
+				case 0: // announce by short ids; the node asks for what it misses; answer (or not quite)
+					add("cmpctblock", "cb-short")
+					noise()
+					add("blocktxn", []string{"bt-valid", "bt-valid", "bt-fewer", "bt-none", "bt-wrong", "bt-trunc", "bt-extra", "bt-dup", "bt-size-loop"}[r.Intn(9)])
+				case 1: // the block's transactions are relayed first, then the block is announced by short ids
+					for k := 0; k < 1+r.Intn(3); k++ {
+						add("tx", "blocktx")
+					}
+					add("cmpctblock", "cb-short")
+					if r.Chance(0.5) {
+						add("blocktxn", []string{"bt-valid", "bt-fewer", "bt-none"}[r.Intn(3)])
+					}
+				case 2: // a malformed announcement
+					add("cmpctblock", []string{"cb-idx-overflow", "cb-idx-overflow", "cb-prefilled-trunc", "cb-neg-witness", "cb-dup-shortid", "cb-count-mismatch", "cb-full", "cb-size-loop"}[r.Intn(8)])
+				case 3: // the peer asks for transactions of a block the node has
+					add("getblocktxn", []string{"gbt-valid", "gbt-range", "gbt-huge", "gbt-wrap", "gbt-many"}[r.Intn(5)])
+				}
+			}
+			noise()
+			continue
+		}
 		for i := 0; i < n; i++ {
 			id++
 			m := NetMsg{P: p, ID: id, Seed: r.U64(), DelayMs: []int{0, 0, 0, 1, 5, 9, 11, 30, 500}[r.Intn(9)]}
@@ -86,6 +129,8 @@ func (NetH) Gen(prop string, seed uint64, tier string) *hx.Case {
 				if r.Chance(0.15) {
 					m.Kind = []string{"short82", "trunc", "random", "badagentlen", "mutate"}[r.Intn(5)]
 				}
+			} else if i == 1 && withVersion && r.Chance(0.7) {
+				m.Cmd, m.Kind = "verack", "valid"
 			} else {
 				m.Cmd = netCmds[r.Intn(len(netCmds))]
 				m.Kind = []string{"valid", "valid", "mutate", "mutate", "trunc", "extend", "random", "empty", "count", "max"}[r.Intn(10)]
@@ -99,12 +144,35 @@ func (NetH) Gen(prop string, seed uint64, tier string) *hx.Case {
 			ops = append(ops, hx.J(m))
 		}
 	}
-	// interleave the peers' sequences (order within a peer is kept)
-	for i := len(ops) - 1; i > 0; i-- {
-		j := r.Intn(i + 1)
-		ops[i], ops[j] = ops[j], ops[i]
+	// interleave the peers' sequences; the order within a peer is kept (in one case out of ten it is not:
+	// messages before the handshake, replies before requests)
+	if r.Chance(0.1) {
+		for i := len(ops) - 1; i > 0; i-- {
+			j := r.Intn(i + 1)
+			ops[i], ops[j] = ops[j], ops[i]
+		}
+		return &hx.Case{Cfg: hx.J(cfg), Ops: ops}
 	}
-	return &hx.Case{Cfg: hx.J(cfg), Ops: ops}
+	queues := make([][]json.RawMessage, cfg.Peers)
+	for _, o := range ops {
+		var m NetMsg
+		json.Unmarshal(o, &m)
+		queues[m.P] = append(queues[m.P], o)
+	}
+	var merged []json.RawMessage
+	for len(merged) < len(ops) {
+		p := r.Intn(cfg.Peers)
+		if len(queues[p]) == 0 {
+			continue
+		}
+		// bursts: a peer usually sends a few messages in a row
+		k := 1 + r.Intn(4)
+		for ; k > 0 && len(queues[p]) > 0; k-- {
+			merged = append(merged, queues[p][0])
+			queues[p] = queues[p][1:]
+		}
+	}
+	return &hx.Case{Cfg: hx.J(cfg), Ops: merged}
 }
 
 // ---------------------------------------------------------------- message construction
@@ -176,6 +244,108 @@ type netRun struct {
 	known   [][32]byte
 	stop    bool
 	maxStep int
+	pend    [64][32]byte
+	npend   int
+	plans   map[int]*cbPlan // per peer: the block of the compact-block conversation in progress
+	cver    map[int]int     // per peer: compact-block version announced with sendcmpct
+}
+
+// noteConnected / syncModel hand the hashes of blocks the node has connected from the main-loop goroutine to
+// the feeding goroutine without creating happens-before edges the race detector could see.
+//
+//go:norace
+func (n *netRun) noteConnected(h [32]byte) {
+	if n.npend < len(n.pend) {
+		n.pend[n.npend] = h
+		n.npend++
+	}
+}
+
+//go:norace
+func (n *netRun) takeConnected() (hs [][32]byte) {
+	simrt.RaceOff()
+	for i := 0; i < n.npend; i++ {
+		hs = append(hs, n.pend[i])
+	}
+	simrt.RaceOn()
+	n.npend = 0
+	return
+}
+
+// syncModel: later blocks and transactions are built on what the node has connected.
+func (n *netRun) syncModel() {
+	for _, h := range n.takeConnected() {
+		if ln := n.l.Nodes[h]; ln != nil && ln.Valid() && ln.CumWork.Cmp(n.model.CumWork) > 0 {
+			n.model = ln
+		}
+	}
+}
+
+// cbPlan is a peer's side of a BIP152 exchange.
+type cbPlan struct {
+	blk     *ledger.Block
+	sentTx  int   // transactions of blk already relayed as "tx" messages
+	missing []int // indexes announced by short id in the last cmpctblock
+}
+
+func (n *netRun) plan(p int, r *hx.Rng) *cbPlan {
+	if n.plans == nil {
+		n.plans, n.cver = map[int]*cbPlan{}, map[int]int{}
+	}
+	if pl := n.plans[p]; pl != nil {
+		return pl
+	}
+	bl := n.newBlocksN(r, 1, 1+r.Intn(4))
+	if len(bl) == 0 {
+		return nil
+	}
+	n.plans[p] = &cbPlan{blk: bl[0]}
+	return n.plans[p]
+}
+
+func shortID(hdr, nonce []byte, t *ledger.Tx, ver int) []byte {
+	h := sha256.New()
+	h.Write(hdr)
+	h.Write(nonce)
+	kk := h.Sum(nil)
+	k0, k1 := binary.LittleEndian.Uint64(kk[0:8]), binary.LittleEndian.Uint64(kk[8:16])
+	id := t.ID()
+	if ver == 2 {
+		id = t.WID()
+	}
+	var b [8]byte
+	binary.LittleEndian.PutUint64(b[:], siphash.Hash(k0, k1, id[:]))
+	return b[:6]
+}
+
+// cmpct builds a cmpctblock payload: prefilled[i] says whether transaction i travels in full.
+func (n *netRun) cmpct(p int, b *ledger.Block, nonce []byte, prefilled []bool) []byte {
+	var w bytes.Buffer
+	hdr := b.H.Bytes()
+	w.Write(hdr)
+	w.Write(nonce)
+	ns := 0
+	for i := range b.Txs {
+		if !prefilled[i] {
+			ns++
+		}
+	}
+	w.Write(vint(uint64(ns)))
+	for i, t := range b.Txs {
+		if !prefilled[i] {
+			w.Write(shortID(hdr, nonce, t, n.cver[p]))
+		}
+	}
+	w.Write(vint(uint64(len(b.Txs) - ns)))
+	last := -1
+	for i, t := range b.Txs {
+		if prefilled[i] {
+			w.Write(vint(uint64(i - last - 1)))
+			w.Write(t.Bytes(true))
+			last = i
+		}
+	}
+	return w.Bytes()
 }
 
 func (n *netRun) versionPayload(r *hx.Rng, height uint32) []byte {
@@ -233,12 +403,18 @@ func (n *netRun) locator(r *hx.Rng) []byte {
 }
 
 // newBlocks builds k valid blocks on the current tip (not added to the node).
-func (n *netRun) newBlocks(r *hx.Rng, k int) []*ledger.Block {
+func (n *netRun) newBlocks(r *hx.Rng, k int) []*ledger.Block { return n.newBlocksN(r, k, -1) }
+
+func (n *netRun) newBlocksN(r *hx.Rng, k, ntx int) []*ledger.Block {
 	n.m.R = r
 	var res []*ledger.Block
 	cur := n.model
 	for i := 0; i < k; i++ {
-		b, ok := n.m.Build(cur, ledger.BlockOpts{NTx: r.Intn(4)})
+		nt := ntx
+		if nt < 0 {
+			nt = r.Intn(4)
+		}
+		b, ok := n.m.Build(cur, ledger.BlockOpts{NTx: nt})
 		if !ok {
 			break
 		}
@@ -263,8 +439,280 @@ func (n *netRun) someTx(r *hx.Rng) *ledger.Tx {
 	return t
 }
 
+// panicSite extracts from the report printed by OneConnection.Run's catch-all recover the panic value and the
+// innermost function of the project on the stack.
+func panicSite(rep string) (where, what string) {
+	i := strings.Index(rep, "Make sure to include the data below:")
+	if i < 0 {
+		return "", ""
+	}
+	lines := strings.Split(rep[i:], "\n")
+	for _, l := range lines[1:] {
+		if t := strings.TrimSpace(l); t != "" {
+			what = t
+			break
+		}
+	}
+	seenPanic := false
+	for _, l := range lines {
+		if strings.HasPrefix(l, "panic(") {
+			seenPanic = true
+			continue
+		}
+		if seenPanic && strings.Contains(l, "github.com/piotrnar/gocoin/") && !strings.HasPrefix(l, "\t") {
+			f := l[strings.LastIndex(l, "/")+1:]
+			if k := strings.LastIndex(f, "("); k > 0 {
+				f = f[:k]
+			}
+			return f, what
+		}
+	}
+	return "unknown", what
+}
+
+// sizeLoopTx is a "transaction" whose counts are astronomically large while its length fields are chosen
+// (CompactSize values of 2^63 and more, i.e. negative once converted to int) so that a size scanner which
+// adds them up makes no progress through the buffer.
+func sizeLoopTx(r *hx.Rng) []byte {
+	neg := func(v int64) []byte {
+		b := make([]byte, 9)
+		b[0] = 0xff
+		binary.LittleEndian.PutUint64(b[1:], uint64(v))
+		return b
+	}
+	var w bytes.Buffer
+	switch r.Intn(3) {
+	case 0: // 2^62 inputs, each of size 36+9+len+4 = 0
+		w.Write([]byte{1, 0, 0, 0})
+		w.Write([]byte{0xff, 0, 0, 0, 0, 0, 0, 0, 0x40})
+		w.Write(make([]byte, 36))
+		w.Write(neg(-49))
+	case 1: // one input, 2^62 outputs of size 8+9+len = 0
+		w.Write([]byte{1, 0, 0, 0, 1})
+		w.Write(make([]byte, 36))
+		w.Write([]byte{0, 0xff, 0xff, 0xff, 0xff})
+		w.Write([]byte{0xff, 0, 0, 0, 0, 0, 0, 0, 0x40})
+		w.Write(make([]byte, 8))
+		w.Write(neg(-17))
+	default: // segwit: one input, one output, 2^62 witness items of size 9+len = 0
+		w.Write([]byte{2, 0, 0, 0, 0, 1, 1})
+		w.Write(make([]byte, 36))
+		w.Write([]byte{0, 0xff, 0xff, 0xff, 0xff, 1, 0, 0, 0, 0, 0, 0, 0, 0, 0})
+		w.Write([]byte{0xff, 0, 0, 0, 0, 0, 0, 0, 0x40})
+		w.Write(neg(-9))
+	}
+	w.Write(make([]byte, 16))
+	return w.Bytes()
+}
+
+// convPayload builds the messages of the scripted compact-block conversations.
+func (n *netRun) convPayload(m *NetMsg, r *hx.Rng) (pl []byte, ok bool) {
+	p := m.P
+	if n.plans == nil {
+		n.plans, n.cver = map[int]*cbPlan{}, map[int]int{}
+	}
+	switch m.Kind {
+	case "blocktx":
+		// relay the next transaction of the block that will be announced
+		cp := n.plan(p, r)
+		if cp == nil || cp.sentTx+1 >= len(cp.blk.Txs) {
+			return nil, false
+		}
+		cp.sentTx++
+		return cp.blk.Txs[cp.sentTx].Bytes(true), true
+	case "cb-short", "cb-full", "cb-idx-overflow", "cb-prefilled-trunc", "cb-neg-witness", "cb-dup-shortid", "cb-count-mismatch", "cb-size-loop":
+		cp := n.plan(p, r)
+		if cp == nil {
+			return nil, false
+		}
+		b := cp.blk
+		nonce := r.Bytes(8)
+		pre := make([]bool, len(b.Txs))
+		pre[0] = true
+		switch m.Kind {
+		case "cb-full":
+			for i := range pre {
+				pre[i] = true
+			}
+		case "cb-short":
+			for i := 1; i < len(pre); i++ {
+				pre[i] = r.Chance(0.2)
+			}
+		}
+		cp.missing = nil
+		for i := range pre {
+			if !pre[i] {
+				cp.missing = append(cp.missing, i)
+			}
+		}
+		pl = n.cmpct(p, b, nonce, pre)
+		hdr := b.H.Bytes()
+		switch m.Kind {
+		case "cb-idx-overflow":
+			// differential indexes that add up beyond the number of transactions (each one alone is in range)
+			var w bytes.Buffer
+			w.Write(hdr)
+			w.Write(nonce)
+			nshort := r.Intn(2)
+			w.Write(vint(uint64(nshort)))
+			for i := 0; i < nshort; i++ {
+				w.Write(r.Bytes(6))
+			}
+			cb := b.Txs[0].Bytes(true)
+			w.Write(vint(2))
+			total := nshort + 2
+			first := r.Intn(total)
+			w.Write(vint(uint64(first)))
+			w.Write(cb)
+			w.Write(vint(uint64(total - 1 - r.Intn(total-first)))) // < total, but first+1+this >= total
+			w.Write(cb)
+			pl = w.Bytes()
+		case "cb-prefilled-trunc":
+			// the last prefilled transaction claims more bytes (script / witness item length) than the message has
+			cut := 1 + r.Intn(40)
+			if cut >= len(pl)-100 {
+				cut = 1
+			}
+			pl = pl[:len(pl)-cut]
+		case "cb-neg-witness":
+			// a prefilled segwit transaction whose witness item length does not fit an int
+			var w bytes.Buffer
+			w.Write(hdr)
+			w.Write(nonce)
+			w.Write(vint(0))
+			w.Write(vint(1))
+			w.Write(vint(0))
+			w.Write([]byte{2, 0, 0, 0, 0, 1, 1})                                   // version, marker+flag, one input
+			w.Write(make([]byte, 36))                                              // prevout
+			w.Write([]byte{0, 0xff, 0xff, 0xff, 0xff, 1, 0, 0, 0, 0, 0, 0, 0, 0, 0}) // empty script, sequence, one output of value 0, empty script
+			w.Write([]byte{1})                                                     // one witness item ...
+			w.Write([][]byte{{0xff, 0, 0, 0, 0, 0, 0, 0, 0x80}, {0xff, 0xff, 0xff, 0xff, 0xff, 0xff, 0xff, 0xff, 0xff}, {0xfe, 0xff, 0xff, 0xff, 0x7f}, {0xff, 0xf0, 0xff, 0xff, 0xff, 0xff, 0xff, 0xff, 0x7f}}[r.Intn(4)])
+			w.Write(r.Bytes(r.Intn(12)))
+			pl = w.Bytes()
+		case "cb-size-loop":
+			var w bytes.Buffer
+			w.Write(hdr)
+			w.Write(nonce)
+			w.Write(vint(0))
+			w.Write(vint(1))
+			w.Write(vint(0))
+			w.Write(sizeLoopTx(r))
+			pl = w.Bytes()
+		case "cb-dup-shortid":
+			var w bytes.Buffer
+			w.Write(hdr)
+			w.Write(nonce)
+			w.Write(vint(2))
+			sid := r.Bytes(6)
+			w.Write(sid)
+			w.Write(sid)
+			w.Write(vint(1))
+			w.Write(vint(0))
+			w.Write(b.Txs[0].Bytes(true))
+			pl = w.Bytes()
+		case "cb-count-mismatch":
+			// counts that disagree with the bytes that follow
+			off := 88
+			c := [][]byte{vint(uint64(len(cp.missing)) + 1 + uint64(r.Intn(3))), {0xfd, 0xff, 0xff}, {0xfe, 0xff, 0xff, 0xff, 0x7f}, {0xff, 0xff, 0xff, 0xff, 0xff, 0xff, 0xff, 0xff, 0xff}, vint(50000)}[r.Intn(5)]
+			pl = append(append(append([]byte{}, pl[:off]...), c...), pl[off+1:]...)
+		}
+		return pl, true
+	case "bt-valid", "bt-fewer", "bt-none", "bt-wrong", "bt-trunc", "bt-extra", "bt-dup", "bt-size-loop":
+		cp := n.plans[p]
+		var h [32]byte
+		var txs []*ledger.Tx
+		if cp != nil {
+			h = cp.blk.Hash()
+			for _, i := range cp.missing {
+				txs = append(txs, cp.blk.Txs[i])
+			}
+		} else {
+			h = n.someHash(r)
+		}
+		switch m.Kind {
+		case "bt-fewer":
+			if len(txs) > 0 {
+				txs = txs[:r.Intn(len(txs))]
+			}
+		case "bt-none":
+			txs = nil
+		case "bt-wrong":
+			if t := n.someTx(r); t != nil {
+				txs = append([]*ledger.Tx{t}, txs...)
+			}
+		case "bt-extra":
+			if t := n.someTx(r); t != nil {
+				txs = append(txs, t)
+			}
+		case "bt-dup":
+			if len(txs) > 0 {
+				txs = append(txs, txs[0])
+			}
+		}
+		var w bytes.Buffer
+		w.Write(h[:])
+		w.Write(vint(uint64(len(txs))))
+		for _, t := range txs {
+			w.Write(t.Bytes(true))
+		}
+		pl = w.Bytes()
+		if m.Kind == "bt-size-loop" {
+			pl = append(pl, sizeLoopTx(r)...)
+		}
+		if m.Kind == "bt-trunc" && len(pl) > 40 {
+			pl = pl[:len(pl)-1-r.Intn(min(30, len(pl)-34))]
+		}
+		if m.Kind == "bt-valid" {
+			delete(n.plans, p) // the next conversation of this peer announces a new block
+		}
+		return pl, true
+	case "gbt-valid", "gbt-range", "gbt-huge", "gbt-wrap", "gbt-many":
+		// a block the node has on disk: the tip (or a recent ancestor)
+		ln := n.model
+		for k := r.Intn(3); k > 0 && ln.Parent != nil && ln.Parent.Blk != nil; k-- {
+			ln = ln.Parent
+		}
+		if ln.Blk == nil {
+			return nil, false
+		}
+		ntx := uint64(len(ln.Blk.Txs))
+		var idx []uint64
+		switch m.Kind {
+		case "gbt-valid":
+			idx = []uint64{0}
+		case "gbt-range":
+			idx = []uint64{ntx + uint64(r.Intn(3))}
+		case "gbt-huge":
+			idx = []uint64{[]uint64{1 << 63, ^uint64(0), 1<<63 + 5, 1<<64 - 2}[r.Intn(4)]}
+		case "gbt-wrap":
+			idx = []uint64{0, ^uint64(0)} // the second differential index wraps the running index back to 0
+		case "gbt-many":
+			for i := 0; i < 2+r.Intn(5); i++ {
+				idx = append(idx, uint64(r.Intn(2)))
+			}
+		}
+		var w bytes.Buffer
+		w.Write(ln.Hash[:])
+		w.Write(vint(uint64(len(idx))))
+		for _, v := range idx {
+			w.Write(vint(v))
+		}
+		return w.Bytes(), true
+	}
+	return nil, false
+}
+
 // payload builds the payload for one generated message.
 func (n *netRun) payload(m *NetMsg, r *hx.Rng) []byte {
+	if pl, ok := n.convPayload(m, r); ok {
+		return pl
+	}
+	if m.Cmd == "sendcmpct" && m.Kind == "valid" {
+		if n.cver == nil {
+			n.plans, n.cver = map[int]*cbPlan{}, map[int]int{}
+		}
+		n.cver[m.P] = 2
+	}
 	var pl []byte
 	switch m.Cmd {
 	case "version":
@@ -472,6 +920,12 @@ func (NetH) Run(t *testing.T, c *hx.Case) *hx.Outcome {
 
 	scfg := simrt.Config{Seed: cfg.SchedSeed, YieldP: cfg.YieldP, TimerP: cfg.TimerP, MaxConsec: cfg.MaxConsec, StepBudget: 80_000_000, PCT: cfg.PCT, PCTSteps: cfg.PCTSteps}
 	now0 := int64(tip.Time) + 600
+	// the catch-all recover in OneConnection.Run reports an escaped panic on standard output: keep it
+	realStdout := os.Stdout
+	capf, _ := os.CreateTemp(root, "stdout")
+	if capf != nil {
+		os.Stdout = capf
+	}
 	res := simrt.Run(scfg, func() {
 		simrt.Sleep(time.Unix(now0, 0).Sub(time.Now()))
 		common.CFG.Testnet, common.Testnet = false, false
@@ -483,6 +937,11 @@ func (NetH) Run(t *testing.T, c *hx.Case) *hx.Outcome {
 		common.CFG.TXRoute.Enabled, common.CFG.TXRoute.MaxTxWeight = true, 400000
 		common.CFG.WebUI.AllowedIP = "127.0.0.1"
 		common.CFG.Net.MaxInCons, common.CFG.Net.MaxOutCons = 20, 10
+		common.CFG.Net.MaxBlockAtOnce = 3 // the client's defaults (InitConfig)
+		common.CFG.Memory.MaxCachedBlks, common.CFG.Memory.SyncCacheSize = 200, 500
+		common.CFG.TXPool.FeePerByte, common.CFG.TXRoute.FeePerByte = 0.001, 0.1
+		common.CFG.Stat.HashrateHrs, common.CFG.Stat.MiningHrs, common.CFG.Stat.FeesBlks = 12, 24, 24
+		common.CFG.DropPeers.ImmunityMinutes = 15
 		common.CFG.Net.ListenTCP = false
 		common.CFG.DropPeers.PingPeriodSec = 60
 		common.CFG.DropPeers.DropEachMinutes = 5
@@ -594,6 +1053,7 @@ func (NetH) Run(t *testing.T, c *hx.Case) *hx.Outcome {
 				break
 			}
 			r := hx.NewRng(m.Seed)
+			n.syncModel()
 			pl := n.payload(m, r)
 			raw := wireMsg(m.Cmd, pl, m.HdrMut, r)
 			conn := n.conns[m.P]
@@ -646,6 +1106,12 @@ func (NetH) Run(t *testing.T, c *hx.Case) *hx.Outcome {
 			if !d && !n.bad {
 				viol("handler.stuck", "peer %d: the connection goroutine did not end within 10 simulated seconds after the peer hung up", p)
 			}
+			for _, cmd := range []string{"getblocktxn", "blocktxn", "cmpctblock", "getdata", "getheaders", "headers", "inv", "reject", "sendcmpct", "tx\x00", "block\x00"} {
+				pad := append([]byte(cmd), make([]byte, 12)...)[:12]
+				if c := bytes.Count(n.conns[p].Sent, append(netMagic[:], pad...)); c > 0 {
+					out.Probe("node_sent:"+strings.TrimRight(cmd, "\x00"), int64(c))
+				}
+			}
 			out.Fault("fragmented_reads", int64(n.conns[p].Fragments))
 			out.Fault("read_deadline_expired", int64(n.conns[p].TimedOut))
 		}
@@ -697,6 +1163,23 @@ func (NetH) Run(t *testing.T, c *hx.Case) *hx.Outcome {
 			n.n.Close()
 		}
 	})
+	os.Stdout = realStdout
+	if capf != nil {
+		capf.Close()
+		if rep, err := os.ReadFile(capf.Name()); err == nil {
+			if os.Getenv("VSIM_DEBUG") != "" {
+				os.Stderr.Write(rep)
+			}
+			if where, what := panicSite(string(rep)); where != "" {
+				for i := range out.Violations {
+					if out.Violations[i].Class == "handler.panic" {
+						out.Violations[i].Class = "handler.panic:" + where
+						out.Violations[i].Msg += " | reported by Run(): " + what + " in " + where
+					}
+				}
+			}
+		}
+	}
 	out.Evals = 1
 	var ol []string
 	for i, m := range msgs {
@@ -763,5 +1246,6 @@ func (n *netRun) mainBlock(nb *network.BlockRcvd) {
 	} else {
 		common.RecalcAverageBlockSize()
 		n.out.Probe("block_from_peer_connected", 1)
+		n.noteConnected(nb.Block.Hash.Hash)
 	}
 }
